@@ -107,7 +107,11 @@ class Report:
               "coverage": self.cov, "assumptions": self.assumptions,
               "wall_s": round(time.time() - self.t0, 2), "violations": len(self.violations)}
         _validate(ev)
-        jdump(ev, os.path.join(VERIF, "evidence", self.pid + ".json"))
+        # VERIF_EVIDENCE_DIR: only for runs against scratch copies with seeded changes (tools/reseed_all.sh), so that such
+        # a run never overwrites the evidence of the real tree
+        evdir = os.environ.get("VERIF_EVIDENCE_DIR") or os.path.join(VERIF, "evidence")
+        os.makedirs(evdir, exist_ok=True)
+        jdump(ev, os.path.join(evdir, self.pid + ".json"))
         log("[%s] tier=%s evaluations=%d distinct=%d states=%d transitions=%d traces=%d violations=%d wall=%.1fs"
             % (self.pid, self.tier, self.cov["evaluations"], self.cov["distinct_nontrivial"], self.cov["states"],
                self.cov["transitions"], self.cov["traces_validated_against_impl"], len(self.violations),
